@@ -318,3 +318,233 @@ def result_depends_on(repo, rep, rule, qual, needed, what):
                      "object rather than from the result of the earlier steps", anchor=f"lost-dependency:{fi.short}")
         else:
             rep.ok(rule, f"{fi.file}:{r.lineno} {fi.short}", unparse(r)[:60], f"depends on all of {list(needed)} on the all-steps path")
+
+
+# ---------------------------------------------------------------------------------------------------------------------
+def _blend_sites(tree):
+    """`c * a + (1 - c) * b`: an arithmetic blend with a mask and its complement (0 * NaN = NaN leaks the unselected alternative)."""
+    from ..astutil import factors
+    out = []
+    for b in ast.walk(tree):
+        if not (isinstance(b, ast.BinOp) and isinstance(b.op, ast.Add)):
+            continue
+        fl, fr = [unparse(x) for x in factors(b.left)], [unparse(x) for x in factors(b.right)]
+        for f1, f2 in ((fl, fr), (fr, fl)):
+            for c in f1:
+                if any(x.replace(" ", "") in (f"(1-{c})".replace(" ", ""), f"1-{c}".replace(" ", ""), f"(1.0-{c})".replace(" ", ""), f"(~{c})".replace(" ", ""), f"~{c}".replace(" ", "")) for x in f2):
+                    out.append((b, c))
+                    break
+            else:
+                continue
+            break
+    return out
+
+
+def no_arithmetic_blend(repo, rep, rule, prefixes):
+    """A choice between two alternatives by a condition is made with where(): `cond * a + (1 - cond) * b` evaluates BOTH alternatives into
+    the result, so a NaN / inf in the alternative that was NOT selected (0 * NaN = NaN) ends up in the output."""
+    probe = ast.parse("y = cond * a + (1 - cond) * b\nz = w * a + (1 - v) * b")
+    if len(_blend_sites(probe)) != 1:
+        raise AnalysisError(f"{rule}: blend detector does not fire exactly on its positive example")
+    n = 0
+    for fi in repo.all_funcs():
+        if not fi.module.name.startswith(tuple(prefixes)):
+            continue
+        n += 1
+        for b, c in _blend_sites(fi.node):
+            rep.fail(rule, fi.file, b.lineno, fi.qualname, unparse(b)[:100],
+                     f"the alternatives are blended arithmetically with '{c}' and its complement: a NaN / inf in the alternative that is NOT selected "
+                     "propagates (0 * NaN = NaN), so the constructed spectrum is NaN where the selected shape is perfectly defined; select with where()",
+                     anchor=f"blend:{fi.short}")
+    rep.ok(rule, "package", f"{n} functions", "no mask / complement arithmetic blend")
+    rep.floor(rule, "functions scanned for arithmetic blends", n, 5)
+
+
+# ---------------------------------------------------------------------------------------------------------------------
+_SHAPE_FROM_DATA = ("dropna",)
+
+
+def no_data_dependent_shape(repo, rep, rule, prefixes=("wavespectra.specarray", "wavespectra.core.xrstats", "wavespectra.core.npstats")):
+    """Statistics keep the grid of the spectrum: `dropna(dim)` / `where(..., drop=True)` remove the coordinates at which ALL spectra of the
+    object are missing - the axis a positional peak index (`ipeak`) refers to then no longer is the axis of the array it indexes, and which
+    bins exist depends on the OTHER spectra of the dataset."""
+    probe = ast.parse("a = x.dropna(dim='freq', how='all')\nb = x.where(x > 0, drop=True)\nc = x.where(x > 0)")
+    if len(_shape_sites(probe)) != 2:
+        raise AnalysisError(f"{rule}: detector does not fire on its positive examples")
+    n = 0
+    for fi in repo.all_funcs():
+        if not fi.module.name.startswith(tuple(prefixes)):
+            continue
+        n += 1
+        for c in _shape_sites(fi.node):
+            rep.fail(rule, fi.file, c.lineno, fi.qualname, unparse(c)[:100],
+                     "the length of a spectral axis now depends on the data (coordinates missing in every spectrum are dropped): a positional peak index "
+                     "computed on the full axis reads another bin, and the result of one spectrum depends on the other spectra in the object",
+                     anchor=f"data-dependent-shape:{fi.short}")
+    rep.ok(rule, "statistics", f"{n} functions", "no dropna / where(drop=True)")
+    rep.floor(rule, "statistic functions scanned", n, 60)
+
+
+def _shape_sites(tree):
+    out = []
+    for c in ast.walk(tree):
+        if isinstance(c, ast.Call) and isinstance(c.func, ast.Attribute):
+            if c.func.attr in _SHAPE_FROM_DATA:
+                out.append(c)
+            elif c.func.attr == "where" and any(k.arg == "drop" and not (isinstance(k.value, ast.Constant) and k.value.value is False) for k in c.keywords):
+                out.append(c)
+    return out
+
+
+# ---------------------------------------------------------------------------------------------------------------------
+def unconditional_boundary_fill(repo, rep, rule):
+    """smooth_spec: the centred rolling mean leaves NaN in the outermost rows / columns; they are filled from the input on EVERY path
+    (a NaN bin can never be re-attached by the watershed and its energy vanishes from every partition)."""
+    fi = repo.func("wavespectra.core.utils.smooth_spec")
+    found = 0
+
+    def is_fill(v):
+        for c in ast.walk(v):
+            if isinstance(c, ast.Call):
+                nm = call_name(c).split(".")[-1]
+                if nm == "fillna" or nm == "combine_first":
+                    return True
+                if nm == "where" and c.args and any(isinstance(x, ast.Call) and call_name(x).split(".")[-1] in ("notnull", "isnull", "isnan", "notna", "isna") for x in ast.walk(c.args[0])):
+                    return True
+        return False
+
+    def walk(stmts, conds):
+        nonlocal found
+        for s in stmts:
+            if isinstance(s, ast.Assign) and is_fill(s.value):
+                found += 1
+                bad = [t for t in conds if not any(isinstance(x, ast.Call) and call_name(x).split(".")[-1] in ("isnull", "notnull", "isnan", "any") for x in ast.walk(t))]
+                if bad:
+                    rep.fail(rule, fi.file, s.lineno, fi.qualname, f"if {unparse(bad[0])[:50]}: {unparse(s)[:60]}",
+                             "the NaN the centred window leaves at the grid edges is filled from the input only under a condition that is not about the NaN "
+                             "themselves: on the other path the smoothed spectrum keeps NaN rows, which the watershed turns into bins owned by no partition "
+                             "(energy is lost)", anchor="smooth_spec:boundary-fill")
+                else:
+                    rep.ok(rule, f"{fi.file}:{s.lineno} smooth_spec", unparse(s)[:70], "edge NaN filled from the input on every path")
+            elif isinstance(s, ast.If):
+                walk(s.body, conds + [s.test])
+                walk(s.orelse, conds + [s.test])
+            elif isinstance(s, (ast.For, ast.While, ast.With, ast.Try)):
+                walk(s.body, conds)
+    walk(fi.node.body, [])
+    if not found:
+        raise AnalysisError(f"{rule}: smooth_spec: boundary fill (where(notnull) / fillna) not found")
+
+
+# ---------------------------------------------------------------------------------------------------------------------
+def _deep_resolve(fn_node, e, depth=0):
+    """Substitute local names that have exactly one simple assignment in the function by their value (recursively, bounded)."""
+    defs = {}
+    for n in ast.walk(fn_node):
+        if isinstance(n, ast.Assign) and len(n.targets) == 1 and isinstance(n.targets[0], ast.Name):
+            defs.setdefault(n.targets[0].id, []).append(n.value)
+    params = {a.arg for a in fn_node.args.posonlyargs + fn_node.args.args + fn_node.args.kwonlyargs}
+
+    class Sub(ast.NodeTransformer):
+        def __init__(self, d):
+            self.d = d
+
+        def visit_Name(self, n):
+            if isinstance(n.ctx, ast.Load) and n.id in defs and len(defs[n.id]) == 1 and n.id not in params and self.d < 6:
+                import copy
+                return Sub(self.d + 1).visit(copy.deepcopy(defs[n.id][0]))
+            return n
+    import copy
+    return Sub(depth).visit(copy.deepcopy(e))
+
+
+def no_limiter_on(repo, rep, rule, qual, target_pow_of, what):
+    """The exponent of the cos-2s curve is the exact function of the requested spread: a limiter (maximum / minimum / clip / where) on it makes
+    every request beyond the limit come out with the limit's spread."""
+    from ..astutil import resolve
+    fi = repo.func(qual)
+    n = 0
+    for b in ast.walk(fi.node):
+        if isinstance(b, ast.BinOp) and isinstance(b.op, ast.Pow) and any(isinstance(x, ast.Call) and call_name(x).split(".")[-1] == target_pow_of for x in ast.walk(b.left)):
+            n += 1
+            e = b.right
+            full = _deep_resolve(fi.node, e)
+            lim = [call_name(c).split(".")[-1] for c in ast.walk(full) if isinstance(c, ast.Call) and call_name(c).split(".")[-1] in ("maximum", "minimum", "clip", "where", "fmax", "fmin", "max", "min")]
+            if lim:
+                rep.fail(rule, fi.file, b.lineno, fi.qualname, unparse(full)[:100],
+                         f"{what} passes through a limiter ({lim[0]}): requested values beyond the limit are silently replaced, so the spectrum built does not "
+                         "have the spread it was built from", anchor=f"limiter:{fi.short}")
+            else:
+                rep.ok(rule, f"{fi.file}:{b.lineno} {fi.short}", unparse(full)[:80], "exact function of the requested spread (no limiter)")
+    rep.floor(rule, f"powers of {target_pow_of}() in {fi.short}", n, 1)
+
+
+# ---------------------------------------------------------------------------------------------------------------------
+def difference_orientation(repo, rep, rule, qual, param, what):
+    """A signed difference between consecutive steps that is compared with an ASYMMETRIC window must be current - previous: minuend taken
+    at column 1 (current step) of `param`, subtrahend at column 0 (previous step)."""
+    fi = repo.func(qual)
+    if param not in fi.params:
+        raise AnalysisError(f"{rule}: {fi.short} has no parameter {param}")
+    n = 0
+
+    def cols(e):
+        out = set()
+        for s in ast.walk(e):
+            if isinstance(s, ast.Subscript) and any(isinstance(x, ast.Name) and x.id == param for x in ast.walk(s.value)) or \
+                    isinstance(s, ast.Subscript) and isinstance(s.value, ast.Name) and s.value.id == param:
+                idx = s.slice.elts if isinstance(s.slice, ast.Tuple) else [s.slice]
+                for x in idx:
+                    if isinstance(x, ast.Constant) and isinstance(x.value, int) and not isinstance(x.value, bool):
+                        out.add(x.value)
+        return out
+    for b in ast.walk(fi.node):
+        if not (isinstance(b, ast.BinOp) and isinstance(b.op, ast.Sub)):
+            continue
+        l, r = cols(b.left), cols(b.right)
+        if not l or not r or l == r:
+            continue
+        # skip differences wrapped in abs() (orientation immaterial)
+        n += 1
+        if l == {1} and r == {0}:
+            rep.ok(rule, f"{fi.file}:{b.lineno} {fi.short}", unparse(b)[:80], "current (column 1) minus previous (column 0)")
+        elif l == {0} and r == {1}:
+            # harmless under an absolute value
+            par = [p for p in ast.walk(fi.node) if isinstance(p, ast.Call) and call_name(p).split(".")[-1] in ("abs", "absolute", "fabs") and any(x is b for x in ast.walk(p))]
+            if par:
+                rep.ok(rule, f"{fi.file}:{b.lineno} {fi.short}", unparse(b)[:80], "orientation immaterial under abs()")
+            else:
+                rep.fail(rule, fi.file, b.lineno, fi.qualname, unparse(b)[:100],
+                         f"{what} is taken as previous - current: the asymmetric window (growth limit upward, swell limit downward) is applied mirrored",
+                         anchor=f"difference-orientation:{fi.short}:{param}")
+    rep.floor(rule, f"signed step differences of {param}", n, 1)
+
+
+# ---------------------------------------------------------------------------------------------------------------------
+def kernel_shared_state(repo, rep, rule, eng):
+    """Per-spectrum kernels (the functions apply_ufunc vectorises over the non-spectral dimensions) and everything they reach write no
+    module-level object and no mutable default: such state outlives the spectrum being processed."""
+    from ..ufunc import sites
+    from .c07 import _reachable
+    from .c18 import written_mutable_defaults
+    nk, seen = 0, set()
+    for s_ in sites(repo):
+        for kf in s_.kernels():
+            if kf.qualname in seen:
+                continue
+            seen.add(kf.qualname)
+            nk += 1
+            sm = eng.summ.get(kf.qualname)
+            for gk, e_ in (sm.gsites.items() if sm else []):
+                if "AttrDict.__getitem__" in e_.func:
+                    continue        # insert-on-miss of the attribute table: known finding F-C18-c (C18), idempotent, not per-spectrum data
+                rep.fail(rule, e_.file, e_.line, kf.qualname, e_.construct,
+                         f"kernel {kf.short} writes the module-level object {e_.root[2:]} ({e_.what}): what it leaves there is seen by the next spectrum",
+                         list(e_.via))
+    reach = _reachable(repo, eng, seen)
+    for fi_, pname, e0 in written_mutable_defaults(repo, eng):
+        if fi_.qualname in reach:
+            rep.fail(rule, e0.file, e0.line, fi_.qualname, f"{e0.construct}  [default of '{pname}']",
+                     "a mutable default is one object shared by every call: the kernel's result for one spectrum depends on earlier spectra", list(e0.via))
+    rep.ok(rule, "package", f"{nk} kernels, {len(reach)} functions reachable from them", "no write to module-level objects or mutable defaults")
+    rep.floor(rule, "apply_ufunc kernels examined", nk, 15)
